@@ -512,3 +512,43 @@ Qed.
 Print Assumptions C10_stack_spec.
 Print Assumptions C10_stack_scalars.
 Print Assumptions C10_concatenate_spec.
+
+(* ====================================================================================== *)
+(* Gather (numpy.take(input, indices, axis), graphs.rs:3125): the dimension [axis] of the input
+   (shape pre ++ [d] ++ post, axis = |pre|) is replaced by the shape of the index array:
+   result[ip ++ ii ++ ipost] = input[ip ++ [indices[ii]] ++ ipost].
+   Indices are read as unsigned 64-bit values ([as_u64], the identity on the index types the
+   type checker admits: C10_gather_index_value); an index >= d is an error, not a wrap-around.
+   The documented uniqueness of the indices is not needed (and not checked by the evaluator). *)
+From CC Require Import Proofs.EvalSpecGather.
+
+Theorem C10_gather_spec : forall pre d post ish st ist t es idx,
+  valid_shape pre -> 0 < d -> valid_shape post -> valid_shape ish ->
+  length es = Z.to_nat (prod_list (pre ++ d :: post)) ->
+  length idx = Z.to_nat (prod_list ish) ->
+  Forall (fun x => as_u64 ist x < d) idx ->
+  let sh := pre ++ d :: post in let rs := pre ++ ish ++ post in
+  exists r, eval_node (OGather (Z.of_nat (length pre))) [TArray sh st; TArray ish ist] t [VArr es; VArr idx]
+            = Ok (VArr r) /\
+    length r = Z.to_nat (prod_list rs) /\
+    forall ip ii ipost, in_shape ip pre -> in_shape ii ish -> in_shape ipost post ->
+      get r rs (ip ++ ii ++ ipost) = get es sh (ip ++ as_u64 ist (get idx ish ii) :: ipost).
+Proof. exact gather_spec. Qed.
+Theorem C10_gather_index_value : forall st x,
+  width st <> 128 -> signed st = false -> 0 <= x < modulus st -> as_u64 st x = x.
+Proof. exact as_u64_index. Qed.
+
+Example C10_example_gather :
+  (* take([[1,2,3],[4,5,2^100]], [2,0], axis=1) = [[3,1],[2^100,4]] *)
+  Forall (fun x => as_u64 U64 x < 3) [2; 0] /\
+  eval_node (OGather 1) [TArray [2; 3] U128; TArray [2] U64] (TArray [2; 2] U128)
+            [VArr [1; 2; 3; 4; 5; 2 ^ 100]; VArr [2; 0]]
+  = Ok (VArr [3; 1; 2 ^ 100; 4]) /\
+  (* take([[1,2],[3,4],[5,6]], [[2,0]], axis=0) = [[[5,6],[1,2]]] *)
+  eval_node (OGather 0) [TArray [3; 2] U8; TArray [1; 2] U32] (TArray [1; 2; 2] U8)
+            [VArr [1; 2; 3; 4; 5; 6]; VArr [2; 0]]
+  = Ok (VArr [5; 6; 1; 2]).
+Proof. split; [repeat constructor|split; vm_compute; reflexivity]. Qed.
+
+Print Assumptions C10_gather_spec.
+Print Assumptions C10_gather_index_value.
